@@ -6,7 +6,7 @@ use num::bigint::ToBigInt;
 use num::bigint::{BigInt, Sign};
 use num::complex::Complex64;
 use num::pow::Pow;
-use num::{One, Signed, ToPrimitive, Zero};
+use num::{Signed, ToPrimitive, Zero};
 use std::cmp::Ordering;
 use std::fmt;
 use std::hash::{Hash, Hasher};
@@ -676,20 +676,38 @@ fn consistent_hash_f64<H: Hasher>(f: f64, state: &mut H) {
 }
 
 impl NNum {
+    // Must agree with total_eq: numbers that are equal across levels hash alike, and all NaNs are
+    // equal to each other.
     pub fn total_hash<H: Hasher>(&self, state: &mut H) {
+        if self.is_nan() {
+            return consistent_hash_f64(f64::NAN, state);
+        }
         match self {
             NNum::Int(a) => NInt::hash(&a, state),
             NNum::Rational(r) => {
-                // TODO: should we make rationals consistent with floats?
-                BigInt::hash(r.numer(), state);
-                if !r.denom().is_one() {
-                    BigInt::hash(r.denom(), state);
+                if r.is_integer() {
+                    // equal to an integer (and to an integral float)
+                    NInt::hash(&NInt::Big(r.to_integer()), state)
+                } else {
+                    match r.to_f64() {
+                        // equal to a float
+                        Some(f) if BigRational::from_float(f).as_ref() == Some(&**r) => {
+                            consistent_hash_f64(f, state)
+                        }
+                        _ => {
+                            BigInt::hash(r.numer(), state);
+                            BigInt::hash(r.denom(), state);
+                        }
+                    }
                 }
             }
             NNum::Float(f) => consistent_hash_f64(*f, state),
             NNum::Complex(z) => {
                 consistent_hash_f64(z.re, state);
-                consistent_hash_f64(z.im, state);
+                // a zero imaginary part makes it equal to a real number
+                if z.im != 0.0 {
+                    consistent_hash_f64(z.im, state);
+                }
             }
         }
     }
